@@ -25,20 +25,13 @@ Definition env_audit_full : Prop :=
   /\ env_count_class 6 envread_classes = 0
   /\ (60 <=? envread_files_scanned) = true.
 
-(* ... is false today: exactly one use is a recorded finding (os.Getwd in NewPkglint: the spelling of the
-   working directory comes from $PWD; known-findings.json C07/environment/PWD/...) *)
-Lemma env_audit_one_finding : env_count_class 6 envread_classes = 1.
+(* holds today: the one finding of round 4 (os.Getwd in NewPkglint returned the spelling from $PWD)
+   was repaired by /repo 873c354 and is recorded as `fixed` in known-findings.json *)
+Lemma env_audit_no_finding : env_count_class 6 envread_classes = 0.
 Proof. vm_compute. reflexivity. Qed.
 
-Lemma env_audit_refuted : ~ env_audit_full.
-Proof. intros (_ & _ & H & _). rewrite env_audit_one_finding in H. discriminate H. Qed.
-
-Lemma env_audit_partial :
-  forallb env_class_known envread_classes = true
-  /\ N.of_nat (length envread_classes) = envread_count
-  /\ env_count_class 6 envread_classes = 1
-  /\ (60 <=? envread_files_scanned) = true.
+Lemma env_audit_classified : env_audit_full.
 Proof.
   destruct env_audit_complete as (Hknown & Hcount & Hfiles).
-  exact (conj Hknown (conj Hcount (conj env_audit_one_finding Hfiles))).
+  exact (conj Hknown (conj Hcount (conj env_audit_no_finding Hfiles))).
 Qed.
